@@ -168,6 +168,12 @@ TReset == /\ IsEvent("reset")
           /\ memo' = IF "keep" \in DOMAIN Ev /\ Ev.keep THEN memo ELSE <<>>
           /\ act' = [name |-> "start"] /\ UNCHANGED dflt /\ pairs' = <<>> /\ acc' = <<>>
 
+\* "ambient": a step of the environment, not of MASA -- the caller's process leaves errno at EDOM / ERANGE and the floating-point
+\* exception flags raised (or clears them).  None of it is MASA's state: the step stutters on every variable of Masa.tla, and
+\* every later action must be explained from (reg, sel, memo, ...) alone -- a result that depends on errno is rejected as a
+\* wrong value or a memo (purity) mismatch
+TAmbient == IsEvent("ambient") /\ UNCHANGED <<reg, sel, live, status, dflt, memo, act>>
+
 TNext == \/ TEval
          \/ TReset
          \/ /\ UNCHANGED <<pairs, acc>>
@@ -175,7 +181,7 @@ TNext == \/ TEval
                \/ TSetParam \/ TGetParam \/ TInitParam \/ TPurge \/ TSanity
                \/ TSetVec \/ TGetVec \/ TDispP \/ TDispV
                \/ TTestPoly \/ TVersion \/ TPassFunc \/ TTestDefault
-               \/ TEnd \/ TFini
+               \/ TEnd \/ TFini \/ TAmbient
 
 \* after exit(1) the process may only be followed by its fini record or a reset
 ExitedQuiet == status = "exited" => (l > Len(Log) \/ Log[l].op \in {"fini", "reset"})
